@@ -12,6 +12,10 @@ import (
 // It is taken from https://github.com/neo-project/neo/blob/master/neo/IO/Helper.cs#L130
 const MaxArraySize = 0x1000000
 
+// maxArrayPrealloc is the number of elements ReadArray allocates before it has
+// read any of them.
+const maxArrayPrealloc = 1024
+
 // BinReader is a convenient wrapper around an io.Reader and err object.
 // Used to simplify error handling when reading into a struct with many fields.
 type BinReader struct {
@@ -126,9 +130,17 @@ func (r *BinReader) ReadArray(t any, maxSize ...int) {
 	}
 
 	l := int(lu)
-	arr := reflect.MakeSlice(sliceType, l, l)
+	// The count is not trusted with memory: the slice grows while elements really arrive.
+	c := min(l, maxArrayPrealloc)
+	arr := reflect.MakeSlice(sliceType, c, c)
 
 	for i := range l {
+		if i == c {
+			c = min(l, 2*c)
+			grown := reflect.MakeSlice(sliceType, c, c)
+			reflect.Copy(grown, arr)
+			arr = grown
+		}
 		var elem reflect.Value
 		if isPtr {
 			elem = reflect.New(elemType.Elem())
@@ -143,6 +155,10 @@ func (r *BinReader) ReadArray(t any, maxSize ...int) {
 		}
 
 		el.DecodeBinary(r)
+		if r.Err != nil {
+			arr = arr.Slice(0, i+1)
+			break
+		}
 	}
 
 	value.Elem().Set(arr)
